@@ -932,6 +932,25 @@ struct G {
     gate: u32,
 }
 
+/// where in the program the generator is (what the real code does with the node depends on it)
+#[derive(Clone, Copy, Default)]
+struct Gc {
+    /// under a Suspense
+    in_susp: bool,
+    /// in the view a Suspend OUTSIDE Suspense resolves to (rendered later by the response stream)
+    late: bool,
+    /// ... and under a Provider there
+    late_under_v: bool,
+    /// in the view a Suspend INSIDE Suspense resolves to: a Suspend/Resource nested there is dropped by the
+    /// real renderer when still pending (C07's business, timing-dependent content) — not generated
+    in_susp_suspend: bool,
+    /// under a Provider/Suspense that is itself rendered late: a Suspense below it is the second known class
+    /// (F-C20-2, response may hang); only in the corpus
+    no_u: bool,
+    /// avoid the first known class (F-C20-1): no lazy leaf directly in a late view
+    safe: bool,
+}
+
 impl G {
     fn leaf(&mut self) -> u32 {
         self.leaf += 1;
@@ -941,45 +960,59 @@ impl G {
         self.gate += 1;
         self.gate
     }
-    /// `exposed_ok`: may a bare Suspend (outside any Suspense) be given a child that renders lazily?
-    fn sync_leaf(&mut self) -> P {
+    fn sync_leaf(&mut self, c: Gc) -> P {
+        let exposed_pos = c.late && !c.late_under_v;
         match self.rng.below(10) {
-            0..=4 => P::L(self.leaf()),
-            5..=6 => P::E(self.leaf()),
+            0..=4 if !(exposed_pos && c.safe) => P::L(self.leaf()),
+            0..=6 => P::E(self.leaf()),
             7 => P::C(self.leaf()),
             _ => P::F(self.rng.range(1, 3) as u32, self.leaf()),
         }
     }
-    fn prog(&mut self, depth: u32, in_suspense: bool, safe: bool) -> P {
+    fn prog(&mut self, depth: u32, c: Gc) -> P {
         if depth == 0 {
-            return self.sync_leaf();
+            return self.sync_leaf(c);
         }
+        let allow_s = !c.in_susp_suspend && !(c.late && c.late_under_v);
+        let allow_r = !c.in_susp_suspend;
+        let allow_u = !c.no_u;
         match self.rng.below(14) {
-            0..=1 => self.sync_leaf(),
+            0..=1 => self.sync_leaf(c),
             2..=3 => {
                 let k = self.rng.range(1, 9) as u32;
-                P::V(k, Box::new(self.prog(depth - 1, in_suspense, safe)))
+                let mut c2 = c;
+                if c.late {
+                    c2.late_under_v = true;
+                    c2.no_u = true;
+                }
+                P::V(k, Box::new(self.prog(depth - 1, c2)))
             }
-            4..=6 => {
+            4..=6 if allow_s => {
                 let (g, a, b) = (self.gate(), self.leaf(), self.leaf());
-                // the child of a Suspend is built after the await
-                let child = if !in_suspense && safe {
-                    // outside Suspense the rendered child must not look anything up lazily (known class)
-                    match self.rng.below(3) {
-                        0 => P::E(self.leaf()),
-                        1 => P::V(self.rng.range(1, 9) as u32, Box::new(P::E(self.leaf()))),
-                        _ => P::Q(vec![P::E(self.leaf()), P::C(self.leaf())]),
-                    }
+                let mut c2 = c;
+                if c.in_susp {
+                    c2.in_susp_suspend = true;
                 } else {
-                    self.prog(depth - 1, in_suspense, safe)
-                };
-                P::S(g, a, b, Box::new(child))
+                    c2.late = true;
+                    c2.late_under_v = false;
+                }
+                P::S(g, a, b, Box::new(self.prog(depth - 1, c2)))
             }
-            7..=9 => P::U(Box::new(self.prog(depth - 1, true, safe))),
-            10..=11 => P::R(self.gate(), self.leaf(), self.leaf()),
+            7..=9 if allow_u => {
+                let mut c2 = c;
+                if c.late {
+                    c2.no_u = true;
+                }
+                c2.in_susp = true;
+                c2.late = false;
+                c2.late_under_v = false;
+                P::U(Box::new(self.prog(depth - 1, c2)))
+            }
+            10..=11 if allow_r => P::R(self.gate(), self.leaf(), self.leaf()),
+            4..=11 => self.sync_leaf(c),
             _ => {
                 let n = self.rng.range(2, 3);
-                P::Q((0..n).map(|_| self.prog(depth - 1, in_suspense, safe)).collect())
+                P::Q((0..n).map(|_| self.prog(depth - 1, c)).collect())
             }
         }
     }
@@ -993,7 +1026,7 @@ fn gen_case(rng: &mut Rng, name: &str, out: &mut String, tier: &str) {
     for r in 0..nreq {
         let mut g = G { rng: rng.clone(), leaf: 0, gate: 0 };
         let depth = if tier == "thorough" { rng.range(1, 4) } else { rng.range(1, 3) } as u32;
-        let p = g.prog(depth, false, safe);
+        let p = g.prog(depth, Gc { safe, ..Default::default() });
         *rng = g.rng;
         let mode = if rng.chance(1, 2) { "io" } else { "ooo" };
         out.push_str(&format!("req {r} {mode} {}\n", show_prog(&p)));
